@@ -134,7 +134,7 @@ def make_case(rng):
 def run(ctx, model_ok=True):
     from vlib import gen
     rng = ctx.rng
-    cases = [make_case(rng) for _ in range(ctx.n(40, 300))]
+    cases = [make_case(rng) for _ in range(ctx.n(24, 300))]
     base = []
     for method, ts, kw in cases:
         r1 = D.call(method, ts, **kw)
@@ -166,7 +166,7 @@ def run(ctx, model_ok=True):
                                 {"ts": gen.ts_tables_dict(ts), "method": method, "opts": D.jsonable_opts(kw), "hashseed": hs})
     # prior reuse across probability spaces
     import tsdate
-    for _ in range(ctx.n(8, 60)):
+    for _ in range(ctx.n(5, 60)):
         ts = D.datable_ts(rng, historical=False)
         pop = rng.choice([1.0, 10.0])
         try:
@@ -186,6 +186,6 @@ def run(ctx, model_ok=True):
                     ctx.oracle_fail("prior-reuse-differs", "%s differs by %.3g between reused and fresh prior (spaces %r)" % (key, d, seq),
                                     {"ts": gen.ts_tables_dict(ts), "spaces": seq})
     if model_ok:
-        for _ in range(ctx.n(6, 40)):
+        for _ in range(ctx.n(3, 40)):
             cache_tie(ctx, rng)
             space_tie(ctx, rng)
